@@ -71,7 +71,8 @@ class ObjectiveMaximizeIndicator(Objective):
 class ObjectiveMinimizeIndicator(Objective):
     def __init__(self, **data) -> None:
         target = data["target"]
-        weight = data["weight"]
+        # the weight is optional (1 by default), as for ObjectiveMaximizeIndicator
+        weight = data.get("weight", 1)
         super().__init__(
             name=f"Minimize{target.name}",
             target=target,
